@@ -377,3 +377,31 @@ PROPS["C11"] = dict(
         technique="model-based property testing (rapid) against a reference merge",
     ),
 )
+
+PROPS["C02"] = dict(
+    pkg="c02",
+    level="exploration",
+    rule=("worlds of 2..10 documents on three loopback TLS hosts; every served JSON object carries a provenance stamp filled in at "
+          "serve time with the authority the client asked. Documents have their own id, no id, or claim another document's id (forged "
+          "when that lives on another host); 0..3 links under attributedTo/actor/object/inReplyTo/replies/first/next/items/"
+          "orderedItems/outbox/audience pointing at any document as absolute / relative / scheme-relative reference, stub {id,type}, "
+          "embedded copy (claims the target's id, stamped by the embedding host) or embedded id-less object; same- and cross-host "
+          "redirects (absolute and path-only Location); authorities also spelled as localhost:port. Histories of 1..6 top-level "
+          "fetches share the process cache (cache sizes 128 and 2). Oracle: (direct) client.FetchUnknown is driven the way its callers "
+          "do (source = the id just returned) and every returned (object, id) with an id must carry a stamp equal to id.Host — an "
+          "accepted stub without served content is a violation; (end to end) for every actor reachable from pub.New the host "
+          "displayed after the handle equals the stamp in its name. Non-trivial: the world has a cross-host claim, link or redirect "
+          "and the history follows at least one link. Distinct = distinct (world, history)."),
+    units=[
+        rapid("Prop", "TestProp", 2500, 120000, config_toml=_NET + "cache_size = 128\n"),
+        rapid("PropCache2", "TestProp", 1500, 60000, config_toml=_NET + "cache_size = 2\n"),
+    ],
+    manifest=dict(
+        text=("Property-based testing in an adversarial multi-host world with a provenance oracle: who really served each JSON object "
+              "is known from a stamp the simulator writes at serve time, and is compared with the host every accepted id names. "
+              "Sampled."),
+        design_ref="DESIGN.md §3 C02",
+        note="Trusted: the simulator's stamping (Host header of the request) and the driver that mimics FetchUnknown's callers.",
+        technique="property-based testing (rapid) with a provenance-stamp oracle at a multi-host loopback TLS adversary",
+    ),
+)
